@@ -774,6 +774,19 @@ class Flow:
                 if coll is not None and coll[0] in ("tuple", "list") and 0 < len(coll[1]) <= 4 and not any(x[0] == "star" for x in coll[1]):
                     elts = tuple(self.subscript(args[0], const(i)) for i in range(len(coll[1])))
                     return ("tuple" if f[1] == "tuple" else "list", elts)
+            # zip(tuple(D), tuple(D.values())) is D.items(): keys and values of one dict in step
+            if f == ("builtin", "zip") and len(args) == 2 and not kwargs:
+                def unwrap(x):
+                    while x[0] == "call" and x[2] in (("builtin", "tuple"), ("builtin", "list")) and len(x[3]) == 1 and not x[4]:
+                        x = x[3][0]
+                    return x
+                ka, va = unwrap(args[0]), unwrap(args[1])
+                if va[0] == "call" and va[2][0] == "attr" and va[2][2] == "values" and not va[3] and not va[4]:
+                    D = va[2][1]
+                    if ka[0] == "call" and ka[2] == ("attr", D, "keys") and not ka[3] and not ka[4]:
+                        ka = D
+                    if ka == D and D[0] in ("var", "call", "param", "attr", "sub"):
+                        return ("call", self._site(e), ("attr", D, "items"), (), ())
             return ("call", self._site(e), f, args, kwargs)
         if isinstance(e, ast.Starred):
             return ("star", c(e.value))
